@@ -293,17 +293,99 @@ func newQueryPlan(ctx context.Context, store storage.Store, stm *semantic.Statem
 	if err != nil {
 		return nil, err
 	}
+	clauses, err := boundBindingsLast(stm.GraphPatternClauses())
+	if err != nil {
+		return nil, err
+	}
 	return &queryPlan{
 		stm:       stm,
 		store:     store,
 		bndgs:     stm.Bindings(),
 		grfsNames: stm.InputGraphNames(),
-		clauses:   stm.GraphPatternClauses(),
+		clauses:   clauses,
 		filters:   stm.FilterClauses(),
 		tbl:       t,
 		chanSize:  chanSize,
 		tracer:    w,
 	}, nil
+}
+
+// boundBindings returns the bindings the clause uses as time bounds of its
+// predicate.
+func boundBindings(cls *semantic.GraphClause) []string {
+	var bs []string
+	for _, b := range []string{cls.PLowerBoundAlias, cls.PUpperBoundAlias} {
+		if b != "" {
+			bs = append(bs, b)
+		}
+	}
+	return bs
+}
+
+// providesBinding returns true if the clause gives the binding a value, i.e. it
+// uses it for anything but a time bound.
+func providesBinding(cls *semantic.GraphClause, b string) bool {
+	for _, o := range []string{
+		cls.SBinding, cls.SAlias, cls.STypeAlias, cls.SIDAlias,
+		cls.PBinding, cls.PAlias, cls.PIDAlias, cls.PAnchorBinding, cls.PAnchorAlias,
+		cls.OBinding, cls.OAlias, cls.OTypeAlias, cls.OIDAlias, cls.OAnchorBinding, cls.OAnchorAlias,
+	} {
+		if o == b {
+			return true
+		}
+	}
+	return false
+}
+
+// boundBindingsLast returns the clauses in the order written, except that a
+// clause whose time bounds are given by bindings is moved right behind the last
+// clause that provides one of them. Such bounds are read from the rows gathered
+// so far, hence they can only be honored once those rows hold the bindings. A
+// bound binding that no earlier clause provides even then is an error.
+func boundBindingsLast(clauses []*semantic.GraphClause) ([]*semantic.GraphClause, error) {
+	res := append([]*semantic.GraphClause{}, clauses...)
+	// Every move puts a clause behind a provider; bound the work to be safe
+	// against clauses that wait for each other.
+	for moves := 0; moves < len(res)*len(res); moves++ {
+		moved := false
+		for i, cls := range res {
+			if cls == nil {
+				continue
+			}
+			last := -1
+			for _, b := range boundBindings(cls) {
+				for j := i + 1; j < len(res); j++ {
+					if res[j] != nil && providesBinding(res[j], b) && j > last {
+						last = j
+					}
+				}
+			}
+			if last > i {
+				copy(res[i:last], res[i+1:last+1])
+				res[last] = cls
+				moved = true
+				break
+			}
+		}
+		if !moved {
+			break
+		}
+	}
+	for i, cls := range res {
+		if cls == nil {
+			continue
+		}
+		for _, b := range boundBindings(cls) {
+			provided := false
+			for _, prev := range res[:i] {
+				provided = provided || (prev != nil && providesBinding(prev, b))
+			}
+			if !provided {
+				return nil, fmt.Errorf("binding %s is used as a time bound in clause %v but no other clause provides it", b, cls)
+			}
+		}
+	}
+	return res, nil
 }
 
 // processClause retrieves the triples for the provided triple given the
